@@ -288,6 +288,9 @@ def cli_output(F, rep):
     # ---- PDF default-path guard: the function that builds a default `.pdf` path (itself or through a helper) and writes it
     def builds_default(b):
         out = [i for i, t in b.calls() if t["callee"].endswith("Path::with_extension")]
+        for i, t in b.calls():
+            if any((op_const(a) or {}).get("str", "").endswith(".pdf") for a in t["args"]) and "Path" in t["callee"]:
+                out.append(i)
         for i, si, s in b.assigns():
             for k in _consts(s["rv"]):
                 if k.get("str", "").endswith(".pdf"):
